@@ -23,7 +23,12 @@ def convert(events):
     out = []
     for e in events:
         ev = e["ev"]
-        if ev in ("mktemp", "rmtemp"):
+        if ev == "mktemp":
+            continue
+        if ev == "rmtemp":
+            # (the writers of an index share one temporary directory name: it may only be removed by the
+            # writer that holds the lock)
+            out.append({"proc": e["proc"], "ev": "rmtemp"})
             continue
         e2 = {"proc": e["proc"], "ev": ev}
         if "file" in e:
